@@ -59,6 +59,35 @@ def facts_of_case(case):
     return {"op": "dag"}
 
 
+def mixed_list(gen, base):
+    """A flat list mixing plain Python numbers with narrow numpy scalars and narrow 0-d polynomials.
+
+    numpy gives such a list the promoted dtype of its *types* (``[float32(.5), .1]`` is float64,
+    ``[int8(2), 1000]`` is int64): the Python numbers must keep their full value.
+    """
+    rng = gen.rng
+    size = base[-1] if base and rng.random() < 0.8 else rng.choice([1, 2, 3])
+    flavour = rng.choice(["float", "int"])
+    items = []
+    for _ in range(size):
+        form = rng.choice(["py", "py", "np", "poly"])
+        if form == "py":
+            val = rng.choice([0.1, 0.3, -1.7, 1e-3, 2.5]) if flavour == "float" else \
+                rng.choice([1000, -129, 70000, 3, 40000])
+            items.append({"k": "py", "v": G.jnum(val)})
+        elif form == "np":
+            dtype = rng.choice(["float32", "float16"]) if flavour == "float" else \
+                rng.choice(["int8", "int16", "uint8"])
+            val = rng.choice([0.5, 1.0, 2.0, 0.25]) if flavour == "float" else rng.choice([1, 2, 3])
+            items.append({"k": "np", "v": G.jnum(val), "dtype": dtype})
+        else:
+            item = gen.poly(shape=(), kind=flavour, maxexp=2, allow_views=False)
+            item["dtype"] = rng.choice(["float32", "float16"]) if flavour == "float" else \
+                rng.choice(["int8", "int16"])
+            items.append(item)
+    return {"k": "plist", "items": items}
+
+
 def gen_case(gen):
     rng = gen.rng
     base = gen.shape()
@@ -75,6 +104,8 @@ def gen_case(gen):
                 # narrower coefficient types: a different code path of the native layer
                 leaf["dtype"] = {"int": rng.choice(["int32", "int16"]), "float": "float32",
                                  "complex": "complex64"}[lkind]
+        elif rng.random() < 0.25:
+            leaf = mixed_list(gen, base)
         else:
             leaf = gen.const_operand(shape=shape, kind=lkind)
         nodes.append({"leaf": leaf})
